@@ -135,6 +135,22 @@ def run(check: Check) -> None:
     for syms, ii, fl, v, d in deep_bad[:10]:
         check.violation(f"{v}::{' '.join(syms)}", f"{v}: formula {' '.join(syms)!r} (include_intercept={ii}, flags={list(fl)}): {d}",
                         {"kind": "c01_stream", "symbols": syms, "ii": ii, "flags": list(fl)})
+    # numeric scalings (`2:a`): a scaling is no factor of the interaction, so it never moves a term in the final ordering (ground)
+    sc_bad = []
+    nsc = 0
+    for text, icpt, expected in pc.scaled_cases(check.seed * 11 + 5, 3000 if thorough else 400):
+        for route in ("string", "rhs", "part"):
+            nsc += 1
+            try:
+                msg = pc.scaled_check(text, expected, route)
+            except Exception as e:
+                msg = f"scaled-term-raised: formula {text!r} ({route}): {type(e).__name__}: {str(e)[:100]}"
+            if msg:
+                sc_bad.append((text, expected, route, msg))
+    check.obligation("scaled-terms.order/ground", "ground", nsc - len(sc_bad))
+    for text, expected, route, msg in sc_bad[:5]:
+        check.obligation("scaled-terms.order/ground", "refuted")
+        check.violation(f"{msg.split(':', 1)[0]}::{text}::{route}", msg, {"kind": "c01_scaled", "text": text, "expected": expected, "route": route})
     for i, qa, y, z in itertools.product(range(40), range(len(ch_c01.QUOTED_ATOMS)), range(3), range(3)):
         ch_c01.__dict__["__SHARD__"] = i
         nn += 1
